@@ -20,10 +20,10 @@ LEVEL_NOTE = c01.LEVEL_NOTE
 RULE = c01.RULE.replace("chart field edits by attribute and key, extradata", "SSC chart edits by key and attribute incl. deletion and reordering") + \
     " Values may be pool references: the same Python string object under several keys (identity aliasing)."
 ASSUMPTIONS = c01.ASSUMPTIONS
-MONITORS = ["model_equality", "roundtrip", "restringify", "loads_detects_ssc", "tokenizer_structure", "chart_from_str", "eq_when_notes_last"]
+MONITORS = ["model_equality", "roundtrip", "restringify", "loads_detects_ssc", "tokenizer_structure", "chart_from_str", "eq_when_notes_last", "second_parse_after_editing_the_first"]
 REQUIRED = ["empty_notes", "interned_notes", "same_object_as_notes", "notes2", "notes_not_last", "chart_multi_value",
             "key_only_in_chart", "value_equal_to_notes", "notes_backslash_without_other_meta", "corpus_start",
-            "notes_moved_to_other_key_after_str", "key_starting_with_NOTES_before_the_notes"]
+            "notes_moved_to_other_key_after_str", "key_starting_with_NOTES_before_the_notes", "simfile_with_32_or_more_charts"]
 
 
 def anchors():
@@ -130,6 +130,30 @@ def check(ctx, case):
 
     ctx.mon("restringify")
     ctx.expect(str(r) == text, "restringify:differs", first=text[:400], second=str(r)[:400])
+
+    # the first parse result is scribbled on in place (properties, chart properties, the chart list); loading the same
+    # text again - through loads() when the text is detected as SSC - must give the model again
+    if ok:
+        ctx.mon("second_parse_after_editing_the_first")
+        via_loads = next(iter(m.d), None) == "VERSION"
+        try:
+            first = simfile.loads(text) if via_loads else r
+            first["SCRIBBLE"] = "x"
+            for c in first.charts:
+                c["SCRIBBLE"] = "y"
+                for k in list(c)[:2]:
+                    c[k] = "scribbled"
+            if first.charts:
+                first.charts.pop()
+            r2 = simfile.loads(text) if via_loads else SSCSimfile(string=text)
+            ok2 = type(r2) is SSCSimfile and list(r2.items()) == m.items() and [list(c.items()) for c in r2.charts] == want_charts
+            ctx.expect(ok2 and str(r2) == text, "second-parse:differs-after-the-first-result-was-edited",
+                       via="loads" if via_loads else "SSCSimfile(string=)", charts=repr([list(c.items()) for c in r2.charts])[:400])
+        except Exception as e:
+            ctx.violation(f"second-parse:raised:{type(e).__name__}", {"exc": repr(e)})
+        r = SSCSimfile(string=text)
+    if len(m.charts) >= 32:
+        ctx.feat("simfile_with_32_or_more_charts")
 
     if next(iter(m.d), None) == "VERSION":
         ctx.mon("loads_detects_ssc")
